@@ -25,7 +25,7 @@ from ..ref import pattern as RP
 PID = "C08"
 RULE = (
     "patterns: every (class spec) x (0, 1 or 2 field specs) from the generated field-spec families, well-formed only; nodes: a "
-    "fixed pool of 35 nodes; every (pattern, node) pair is matched.  history: all ordered pairs (thorough: plus triples over 12) "
+    "fixed pool of 35 nodes; every (pattern, node) pair is matched.  history: every core pattern after each of 10 rejected definitions x 3 entry points; all ordered pairs (thorough: plus triples over 12) "
     "of a core pattern set compiled with the cache kept / cleared between / cleared after, then matched; MultiPatternMatcher over "
     "every ordered list of <= 3 core patterns, default and explicit rule order.  states = distinct pattern texts; transitions = "
     "match calls compared with the reference; non-trivial = patterns that match at least one pool node and fail at least one"
@@ -47,12 +47,16 @@ class PA(ASTNode):
 
 @dataclass(frozen=True)
 class PB(PA):
-    pass
+    def __bool__(self) -> bool:  # falsy in a boolean context
+        return False
 
 
 @dataclass(frozen=True)
 class PC(ASTNode):
     s: str = "a"
+
+    def __len__(self) -> int:  # falsy in a boolean context
+        return 0
 
 
 CLS = {"PA": PA, "PB": PB, "PC": PC}
@@ -291,10 +295,10 @@ def _feature(p):
     return "plain"
 
 
-def compile_(rec, text):
+def compile_(rec, text, case=None):
     m, msg = PM.NodeMatcher.from_pattern(text)
     if m is None:
-        rec.violation("C08|compile", {"pattern": text}, f"well-formed pattern rejected: {msg[:200]}")
+        rec.violation("C08|compile" + ("|after-rejected" if case else ""), case or {"pattern": text}, f"well-formed pattern rejected: {msg[:200]}")
     return m
 
 
@@ -358,6 +362,41 @@ def run_shard(cfg):
                 m1b = compile_(rec, t1)  # cached object again
                 if m1b is not None:
                     judge(rec, p1, f"{t1}   [recompiled from cache after {t2}]", m1b, nodes, tag="history")
+    # (2b) a REJECTED definition first (syntactically or semantically ill-formed, using the capture names of the core
+    # patterns), through each entry point, then every core pattern compiled fresh: verdict and captures as in isolation
+    ILL = ["(PA @s -> v @n -> v)", "(PA @items=[$c *] @o -> c)", "(PA @s -> v @o=(Nope))", "(PA @s -> q @o=(Nope @s -> w))", "(PA @s -> rest @s -> rest)",
+           "(PA @items=[(*) -> x (*) -> x])", "(PA @s -> all", "(PA @o -> c @items=[(*) -> c])", "(PA @s -> w @items=[* -> rest] @n -> w)", "(PA @s -> v -> v)"]
+    for ill in ILL:
+        for via in ("from_pattern", "validate_pattern", "multi"):
+            for (p2, t2) in cs:
+                mine = jdx % cfg["of"] == cfg["k"]
+                jdx += 1
+                if not mine:
+                    continue
+                rec.rank = 4 * 10**7 + jdx
+                rec.count("evaluations")
+                PM._MATCHER_CACHE.clear()
+                try:
+                    if via == "from_pattern":
+                        bad = PM.NodeMatcher.from_pattern(ill)[0]
+                    elif via == "validate_pattern":
+                        bad = None if not PM.validate_pattern(ill)[0] else "accepted"
+                    else:
+                        try:
+                            PM.MultiPatternMatcher([("ok", "(*)"), ("bad", ill)])
+                            bad = "accepted"
+                        except PM.ASTPatternDefinitionError:
+                            bad = None
+                except Exception as e:  # noqa: BLE001
+                    rec.violation(f"C08|history|ill-formed-escapes|{type(e).__name__}", {"pattern": ill, "via": via}, f"{type(e).__name__}: {str(e)[:150]}")
+                    continue
+                if bad is not None:
+                    rec.violation("C08|history|ill-formed-accepted", {"pattern": ill, "via": via}, "an ill-formed definition was accepted")
+                    continue
+                m2 = compile_(rec, t2, {"pattern": t2, "after_rejected": ill, "via": via})
+                if m2 is not None:
+                    judge(rec, p2, f"{t2}   [compiled after the rejected definition {ill} via {via}]", m2, nodes, tag="history")
+                rec.outcome("after-rejected")
     # (3) MultiPatternMatcher: first matching rule in the given order
     if tier == "thorough":  # ordered triples of compilations over the first 12 core patterns, cache kept
         for trio in itertools.product(cs[:12], repeat=3):
@@ -418,6 +457,9 @@ def replay(case, cfg):
     rec = Rec(cfg)
     nodes = pool()
     tier = cfg.get("tier", "quick")
+    if "after_rejected" in case or "via" in case:
+        cfg2 = dict(cfg, k=0, of=1, tier=tier)
+        return [v for v in run_shard(cfg2)["violations"] if v["sig"].startswith("C08|history") or v["sig"].startswith("C08|compile")]
     if "pattern" in case:
         text = case["pattern"].split("   [")[0]
         for p in itertools.chain(patterns("thorough"), core("thorough")):
